@@ -140,7 +140,7 @@ def describe(model, st, v, depth=0):
     if isinstance(v, Quantity):
         sc = v.unit.scale
         if isinstance(sc, Sc):
-            raise GiveUp("unit %s has a symbolic scale" % v.unit.name)
+            sc = _num(model, sc)        # AU / pc / arcsec: the value fixed for the small-scope run
         return dict(quantity=describe(model, st, v.value, depth + 1), unit=dict(name=v.unit.name, scale=str(fractions.Fraction(sc)), dims=dict(v.unit.dims)))
     if isinstance(v, Masked):
         raise GiveUp("mask selection")
@@ -160,9 +160,8 @@ def describe(model, st, v, depth=0):
     if isinstance(v, Opaque):
         return dict(opaque=v.tag, text=str(v.info) if isinstance(v.info, str) else v.tag)
     if isinstance(v, Unit):
-        if isinstance(v.scale, Sc):
-            raise GiveUp("unit %s has a symbolic scale" % v.name)
-        return dict(unit=dict(name=v.name, scale=str(fractions.Fraction(v.scale)), dims=dict(v.dims)))
+        sc = _num(model, v.scale) if isinstance(v.scale, Sc) else v.scale
+        return dict(unit=dict(name=v.name, scale=str(fractions.Fraction(sc)), dims=dict(v.dims)))
     raise GiveUp("cannot describe %r" % (v,))
 
 
@@ -402,7 +401,11 @@ def small_counterexample(name, variant, obligation, repo_root=None, timeout_ms=6
             obs, info = con.verify(it, variant)
         except Exception:
             continue
-        ax = solver.global_axioms()
+        # in the small-scope run the astronomical constants have their real values (the symbolic-size proofs hold for
+        # every value; a native counterexample needs the ones astropy uses)
+        from . import units as _u
+        ax = solver.global_axioms() + [_u.AU_M == z3.RealVal('149597870700'), _u.PC_M == z3.RealVal('30856775814913673'),
+                                       _u.C_SI == z3.RealVal('299792458')]
         for ob in obs:
             nm = ob.name if '/' in ob.name else '%s/%s' % (name.split('.')[-1], ob.name)
             if not (nm == short_ob or nm.endswith('/' + short_ob.split('/')[-1]) and short_ob.split('/')[-1] in nm):
@@ -432,6 +435,11 @@ def small_counterexample(name, variant, obligation, repo_root=None, timeout_ms=6
                 if not hyps_ok or model.truth(ob.goal):
                     continue
                 inputs = dict((k, describe(model, getattr(con, '_entry_state', fs), v)) for k, v in con._entry_args.items())
+                if ob.kind in ('pre', 'safe'):
+                    # a definedness obligation (precondition of a library call, division, logarithm, index): on the real
+                    # code its violation shows as an exception or as nan/inf
+                    return dict(inputs=inputs, predicted=dict(status='undefined', result=None, exc=None, args_after={}), path=ob.path, sizes=sizes,
+                                function=name, variant=variant, obligation=obligation)
                 predicted = dict(result=describe(model, fs, fs.retval) if fs.status == 'return' else None,
                                  status=fs.status, exc=fs.exc[0] if fs.exc else None,
                                  args_after=dict((k, describe(model, fs, v)) for k, v in con._entry_args.items()))
@@ -630,6 +638,15 @@ def replay_native(cex, rtol=1e-6, atol=1e-9):
     except Exception as e:       # noqa
         status, exc = 'raise', type(e).__name__
     pred = cex['predicted']
+    if pred['status'] == 'undefined':
+        nums = []
+        if status == 'return':
+            flat_numbers(result, nums)
+            for k in sorted(inputs):
+                flat_numbers(inputs[k], nums)
+        bad = status == 'raise' or any(math.isnan(t) or math.isinf(t) for t in nums)
+        return dict(agrees=bad, detail=('the real function raised %s' % exc) if status == 'raise' else ('the real function returned nan/inf' if bad else 'the real function returned finite values'),
+                    native=dict(status=status, exc=exc))
     if status != pred['status']:
         return dict(agrees=False, detail='the real function %s, the verifier predicted %s' % ('raised ' + str(exc) if status == 'raise' else 'returned', pred['status']))
     if status == 'raise':
